@@ -868,7 +868,11 @@ func c09Run(in *bufio.Scanner, w *bufio.Writer) {
 				st.free.Store(false)
 				st.threads.Register("init")
 				if !st.setInt("z", 0) || !st.setInt("k", 5) {
-					st.dead = true
+					// a loaded machine: once more before giving the case up
+					time.Sleep(300 * time.Millisecond)
+					if !st.setInt("z", 0) || !st.setInt("k", 5) {
+						st.dead = true
+					}
 				}
 				st.threads.Unregister()
 				st.g = nil
